@@ -82,7 +82,13 @@ impl<'a> Reader<'a> {
             self.begin = 0;
         }
 
-        let bytes = self.stdin.read(&mut self.buf[self.end..]).unwrap();
+        let bytes = loop {
+            match self.stdin.read(&mut self.buf[self.end..]) {
+                // a transient condition the `Read` contract asks callers to retry
+                Err(e) if e.kind() == std::io::ErrorKind::Interrupted => continue,
+                res => break res.unwrap(),
+            }
+        };
         if bytes == 0 {
             self.eof = true;
         }
